@@ -158,7 +158,7 @@ func (c *Ctx) SecuritySchemes(n int, supportedOnly bool) []string {
 	haveBearer := false
 	for i := 0; i < n; i++ {
 		k := rapid.SampledFrom(kinds).Draw(t, "scheme_kind")
-		name := c.PlainName("sec", "scheme")
+		name := c.SchemeName("sec", "scheme")
 		var s *SecurityScheme
 		switch k {
 		case "bearer":
@@ -189,6 +189,23 @@ func (c *Ctx) SecuritySchemes(n int, supportedOnly bool) []string {
 		names = append(names, name)
 	}
 	return names
+}
+
+// SchemeName draws a key for components.securitySchemes in the shapes real documents use:
+// camelCase, snake_case, kebab-case, and a key that repeats the header it reads (x-api-key).
+func (c *Ctx) SchemeName(prefix, label string) string {
+	n := c.PlainName(prefix, label)
+	switch rapid.IntRange(0, 5).Draw(c.T, label+"_shape") {
+	case 0:
+		return "x-" + n
+	case 1:
+		return "X-" + strings.Title(n)
+	case 2:
+		return n + "_auth"
+	case 3:
+		return "api-" + n
+	}
+	return n
 }
 
 // securityRequirement draws 1..2 OR-alternatives of one scheme each.
@@ -506,7 +523,7 @@ func (c *Ctx) RouterDoc(o RouterOpts) *Doc {
 			s := prim.Schema()
 			if o.Typed && rapid.IntRange(0, 4).Draw(t, "pathvar_ref") == 0 && c.AllowSchema(s, "component") {
 				if r := c.AddSchema(c.CompName("Pv", "pv"), s); c.AllowSchema(r, "path") {
-					s = r
+					s = c.maybeAliasHops(r, "path", "pv")
 				}
 			}
 			p := &Parameter{Name: v, In: "path", Required: true, Schema: s}
@@ -560,6 +577,21 @@ func (c *Ctx) MapFat() *Doc {
 			s.Properties[c.SafeName("p", "fatprop")] = c.Schema(1, "property")
 		}
 		c.AddSchema(c.CompName("Fat", "fat"), s)
+	}
+	// a recursive component (a tree) whose back references run through several aliases of it
+	if rapid.Bool().Draw(t, "fat_tree") {
+		tree := c.CompName("Tree", "fattree")
+		node := &Schema{Type: "object", Properties: map[string]*Schema{c.SafeName("label", "fattreeprop"): {Type: "string"}}}
+		for i, n := 0, rapid.IntRange(1, 4).Draw(t, "fat_tree_aliases"); i < n; i++ {
+			alias := c.CompName("Twig", "fattwig")
+			cs.Schemas[alias] = &Schema{Ref: RefSchemas + tree}
+			node.Properties[c.SafeName("kids", "fattreeprop")] = &Schema{Type: "array", Items: &Schema{Ref: RefSchemas + alias}}
+		}
+		if rapid.Bool().Draw(t, "fat_tree_direct") {
+			node.Properties[c.SafeName("self", "fattreeprop")] = &Schema{Type: "array", Items: &Schema{Ref: RefSchemas + tree}}
+		}
+		cs.Schemas[tree] = node
+		c.Tag("fat:recursive-tree")
 	}
 	// discriminator with >=4 mapping entries
 	{
@@ -904,7 +936,7 @@ func (c *Ctx) SecurityDoc(kinds []string) *Doc {
 	if ka == "bearer" && kb == "bearer" {
 		kb = "apikey-header" // goag has a single bearer hook
 	}
-	a, b := c.PlainName("sa", "schemeA"), c.PlainName("sb", "schemeB")
+	a, b := c.SchemeName("sa", "schemeA"), c.SchemeName("sb", "schemeB")
 	cs := c.comps()
 	cs.SecuritySchemes = map[string]*SecurityScheme{a: c.scheme(ka, "a"), b: c.scheme(kb, "b")}
 	c.Tag("schemeA:" + ka)
@@ -1001,7 +1033,7 @@ func (c *Ctx) CorsDoc() *Doc {
 		names = c.SecuritySchemes(rapid.IntRange(1, 3).Draw(t, "nschemes"), true)
 		if rapid.IntRange(0, 2).Draw(t, "cors_unsupported_schemes") == 0 {
 			for _, k := range []string{"basic", "oauth2", "apikey-cookie", "oidc"}[rapid.IntRange(0, 3).Draw(t, "cors_unsupported_from"):] {
-				name := c.PlainName("sec", "uscheme")
+				name := c.SchemeName("sec", "uscheme")
 				c.comps().SecuritySchemes[name] = c.scheme(k, name)
 				names = append(names, name)
 				c.Tag("scheme:" + k)
@@ -1057,6 +1089,12 @@ func (c *Ctx) CorsDoc() *Doc {
 				switch rapid.IntRange(0, 3).Draw(t, "op_sec") {
 				case 0:
 					sec := c.securityRequirement(names)
+					// an empty alternative ("anonymous is fine too") reads no header and hides none
+					if rapid.IntRange(0, 3).Draw(t, "anonymous_alternative") == 0 {
+						at := rapid.IntRange(0, len(sec)).Draw(t, "anonymous_at")
+						sec = append(sec[:at:at], append([]map[string][]string{{}}, sec[at:]...)...)
+						c.Tag("cors:anonymous-alternative")
+					}
 					op.Security = &sec
 				case 1:
 					op.Security = &[]map[string][]string{}
@@ -1148,4 +1186,53 @@ func (c *Ctx) ResponsesDoc() *Doc {
 		c.Tag("responses:default-and-numbered-restriction-broken")
 	}
 	return d
+}
+
+// AddCaseTwins gives up to three component schemas a twin whose key differs in the case
+// of its first letter only and whose schema is of another kind (component keys are
+// case-sensitive: Limit and limit are two components). The twins are referenced by
+// nothing; every $ref of the document must keep reaching the component it names.
+func AddCaseTwins(t *rapid.T, d *Doc) int {
+	if d == nil || d.Components == nil || len(d.Components.Schemas) == 0 || rapid.IntRange(0, 2).Draw(t, "case_twins") != 0 {
+		return 0
+	}
+	names := SortedKeys(d.Components.Schemas)
+	k := rapid.IntRange(1, min(3, len(names))).Draw(t, "n_case_twins")
+	n := 0
+	for _, name := range rapid.SliceOfNDistinct(rapid.SampledFrom(names), k, k, rapid.ID[string]).Draw(t, "case_twin_of") {
+		twin := strings.ToLower(name[:1]) + name[1:]
+		if twin == name {
+			twin = strings.ToUpper(name[:1]) + name[1:]
+		}
+		if _, taken := d.Components.Schemas[twin]; taken || twin == name {
+			continue
+		}
+		orig := d.Components.Schemas[name]
+		prim := orig.Ref == "" && (orig.Type == "string" || orig.Type == "integer" || orig.Type == "number" || orig.Type == "boolean")
+		var other *Schema
+		switch {
+		case prim && orig.Type == "string":
+			other = &Schema{Type: "integer", Format: "int32"}
+		case prim:
+			other = &Schema{Type: "string"}
+		default:
+			prop := fmt.Sprintf("twinOnly%d", n)
+			other = &Schema{Type: "object", Properties: map[string]*Schema{prop: {Type: "integer", Format: "int32"}}, Required: []string{prop}}
+		}
+		// for a primitive component half of the time the other way round: the document's
+		// references go to the new key and the old key holds the schema of another kind
+		if prim && rapid.Bool().Draw(t, "case_twin_takes_the_references") {
+			text := strings.ReplaceAll(string(d.JSON()), `"`+RefSchemas+name+`"`, `"`+RefSchemas+twin+`"`)
+			if nd, err := ParseDoc([]byte(text)); err == nil {
+				*d = *nd
+				d.Components.Schemas[twin] = d.Components.Schemas[name]
+				d.Components.Schemas[name] = other
+				n++
+				continue
+			}
+		}
+		d.Components.Schemas[twin] = other
+		n++
+	}
+	return n
 }
